@@ -184,7 +184,7 @@ def build(kinds, end, outer, pre):
             inner = ch.leaf
         for depth, k in reversed(list(enumerate(kinds))):
             assert k == "yf"
-            inner = ch.reg(NS["gen_%d" % depth](inner, pre))
+            inner = ch.reg(NS["gen_%d" % (depth % 7)](inner, pre))
         ch.root = ch.reg(NS["gen_7"](inner, pre))
         return ch
     if end == "trap":
@@ -198,7 +198,7 @@ def build(kinds, end, outer, pre):
         ch.leaf = aw.it
         inner = aw
     for depth, k in reversed(list(enumerate(kinds))):
-        d = str(depth)
+        d = str(depth % 7)
         if k == "co":
             inner = ch.reg(NS["co_" + d](inner, pre))
         elif k == "gco":
@@ -245,6 +245,18 @@ def specs(maxlen):
         for end in ("trap", "iter", "falsy"):
             for pre in (False, True):
                 yield (["yf"] * L, end, "gen", pre)
+
+
+def long_specs():
+    """A few deep chains: depth must not matter (the no-progress guard counts steps without progress, not depth)."""
+    mix = ["co", "gco", "wrap", "awgen", "asend", "anext", "afor"]
+    for n in (60, 99, 101, 150):
+        yield (["co"] * n, "trap", "co", False)
+    yield (["wrap"] * 60, "trap", "co", False)
+    yield ([mix[i % len(mix)] for i in range(84)], "trap", "co", False)
+    yield ([mix[i % len(mix)] for i in range(45)], "iter", "gco", False)
+    yield (["yf"] * 120, "trap", "gen", False)
+    yield (["co"] * 110, "falsy", "co", False)
 
 
 def advance(ch, k):
